@@ -20,4 +20,9 @@ TEXT = {
   "note": "Trusted: Coq kernel+VM; the fake MySQL semantics (DESIGN App. C); synctest; harness/driver; Peek oracle for the kill-loop iteration count. No axioms.",
   "technique": "Coq proof over free-monad program model (oracle semantics, allcalls soundness) + transcript-replay (K2) correspondence",
  },
+ "C18": {
+  "text": "repairReadOnlyOnMaster is modelled as a pure decision (fold over the health records) plus an execution program. Coq theorems for ALL inputs: read-only is decided iff (master at/above critical, or running semi-sync replicas at critical exceed running - ack count) and the master is not already in the required mode, with super flag = not keep_super_writable; writable iff not needed, nobody in the grey zone and currently read-only; otherwise no statement at all; usage comparison = exact ratio; and for every response of every call: only the master is addressed, only with the decided statement, the low-space flag is written only right after the successful statement with the matching value. K2 correspondence replays the real function over fake MySQL; independent monitor re-derives the table.",
+  "note": "Trusted: Coq kernel+VM; fakes; float/rational restriction (total=10000, exact thresholds); harness/driver. No axioms.",
+  "technique": "Coq proof (decision iff by case analysis, allcalls soundness over oracle semantics) + K2 transcript replay",
+ },
 }
